@@ -4,9 +4,12 @@ cd "$(dirname "$0")/.." || exit 2
 tier="${1:-quick}"
 rc=0
 for p in $(cat tools/ready.txt); do
-  out=$(./check "$p" --tier "$tier" 2>&1 | grep -v "US_SPHERE" | tail -3)
+  full=$(./check "$p" --tier "$tier" 2>&1)
   code=$?
+  out=$(echo "$full" | grep -v "US_SPHERE" | tail -3)
   echo "$out" | tail -1
-  echo "$out" | grep -q "VIOLATION" && { echo "$out" | grep VIOLATION; rc=1; }
+  echo "$full" | grep -q "^VIOLATION" && { echo "$full" | grep "^VIOLATION"; rc=1; }
+  [ "$code" -ne 0 ] && [ "$code" -ne 1 ] && { echo "$p: exit $code (infrastructure error / time-out)"; rc=2; }
+  [ "$code" -eq 1 ] && rc=1
 done
 exit $rc
